@@ -427,9 +427,14 @@ def glyf_component(ctx, repo):
     ctx.ob("F4-comp", comp.where, "x/y-scale form whenever the diagonal terms differ", ok)
     # mask applied to user flags is the same on both sides
     def mask(f):
+        # the mask may be spelt as an or-expression of flag names or as a named module constant: compare its value
+        from ..consteval import env_of
+
         for n in walk_no_nested(f.node):
-            if isinstance(n, ast.BinOp) and isinstance(n.op, ast.BitAnd) and norm(n.left) == "self.flags" and isinstance(n.right, ast.BinOp):
-                return norm(n.right)
+            if isinstance(n, ast.Assign) and norm(n.targets[0]).endswith("flags") and isinstance(n.value, ast.BinOp) and isinstance(n.value.op, ast.BitAnd) and norm(n.value.left) == "self.flags":
+                v = try_fold(n.value.right, env_of(f.node))
+                if isinstance(v, int):
+                    return v
         return None
 
     ok = mask(comp) is not None and mask(comp) == mask(dec)
@@ -705,7 +710,9 @@ def hmtx_trimming(ctx, repo):
     ctx.ob("HMTX", mod.rel + ":table__h_m_t_x", f"tail array typecodes {arr}", arr == ["h", "h"])
     la = [norm(st.value) for st in ast.walk(d.node) if isinstance(st, ast.Assign) and norm(st.targets[0]) == "lastAdvance"]
     ctx.ob("HMTX", d.where, f"lastAdvance = {la}", la == ["metrics[-2]"], "" if la == ["metrics[-2]"] else "trailing glyphs must repeat the advance of the last (advance, bearing) pair")
-    w = next((n for n in ast.walk(c.node) if isinstance(n, ast.While)), None)
+    from ..core import private_callees
+
+    w = next((n for fx in [c] + private_callees(repo, c) for n in ast.walk(fx.node) if isinstance(n, ast.While)), None)
     ok = False
     if w is not None:
         t = norm(w.test)
